@@ -87,7 +87,7 @@ theorem Coder.acc1_init (props : Props) (hv : props.valid = true) (d : Nat) (u :
   · show (DictPos.init d preset.length).full ≤ (ByteArray.mk (presetTail d preset).toArray).size
     rw [byteArray_mk_size, presetTail_length]
     exact Nat.le_refl _
-  · exact ⟨fun hu => by cases hu, trivial⟩
+  · exact ⟨fun hu => (by cases hu), trivial⟩
 
 /-- ONE CALL of the LZMA1 coder's `code` from a state satisfying the access invariant: the checked call is the executable
     call, and the invariant holds afterwards unless LZMA_STREAM_END was returned -/
